@@ -1,4 +1,5 @@
 import BvaProofs.Base
+import BvaProofs.ValF
 import BvaModel.Dynamic
 /-!
 # T9 — comparison: `cmpWords` / word-wise equality are numeric comparison of the fetched value
@@ -6,9 +7,6 @@ import BvaModel.Dynamic
 namespace Bva
 
 /-- Σ_{i<n} (f i)·2^(wJ·i) for a word-fetch function -/
-def valF {wJ : Nat} (f : Nat → BitVec wJ) : Nat → Nat
-  | 0 => 0
-  | n + 1 => valF f n + 2 ^ (wJ * n) * (f n).toNat
 
 theorem valF_lt {wJ : Nat} (f : Nat → BitVec wJ) (n : Nat) : valF f n < 2 ^ (wJ * n) := by
   induction n with
@@ -195,5 +193,110 @@ theorem Bvd.cmpBvf_eq_of_fetch {w1 : Nat} (s : Raw 64) (o : Raw w1) (hs : s.Inv)
   refine cmp_of_fetch _ _ _ _ _ (valF_wd_of_inv s (by omega) hs _ ?_) hB
   have := Nat.le_max_left s.length (o.intLen 64)
   omega
+
+-- ---- order laws of the `Nat`-valued comparison (what every `cmp*` above reduces to) ------------------------
+theorem natCmp_refl (a : Nat) : compare a a = .eq := Nat.compare_eq_eq.mpr rfl
+
+theorem natCmp_swap (a b : Nat) : (compare a b).swap = compare b a := by
+  rcases Nat.lt_trichotomy a b with h | h | h
+  · rw [Nat.compare_eq_lt.mpr h, Nat.compare_eq_gt.mpr h]; rfl
+  · rw [Nat.compare_eq_eq.mpr h, Nat.compare_eq_eq.mpr h.symm]; rfl
+  · rw [Nat.compare_eq_gt.mpr h, Nat.compare_eq_lt.mpr h]; rfl
+
+theorem natCmp_eq_iff (a b : Nat) : compare a b = .eq ↔ a = b := Nat.compare_eq_eq
+
+theorem natCmp_lt_iff (a b : Nat) : compare a b = .lt ↔ a < b := Nat.compare_eq_lt
+
+theorem natCmp_gt_iff (a b : Nat) : compare a b = .gt ↔ b < a := Nat.compare_eq_gt
+
+theorem natCmp_total (a b : Nat) : compare a b = .lt ∨ compare a b = .eq ∨ compare a b = .gt := by
+  rcases Nat.lt_trichotomy a b with h | h | h
+  · exact Or.inl (Nat.compare_eq_lt.mpr h)
+  · exact Or.inr (Or.inl (Nat.compare_eq_eq.mpr h))
+  · exact Or.inr (Or.inr (Nat.compare_eq_gt.mpr h))
+
+/-- totality of `≤`: one of the two directions is not `gt` -/
+theorem natCmp_le_total (a b : Nat) : compare a b ≠ .gt ∨ compare b a ≠ .gt := by
+  rw [Ne, Ne, Nat.compare_eq_gt, Nat.compare_eq_gt]; omega
+
+theorem natCmp_lt_trans {a b c : Nat} (h1 : compare a b = .lt) (h2 : compare b c = .lt) :
+    compare a c = .lt := by
+  rw [Nat.compare_eq_lt] at *; omega
+
+theorem natCmp_gt_trans {a b c : Nat} (h1 : compare a b = .gt) (h2 : compare b c = .gt) :
+    compare a c = .gt := by
+  rw [Nat.compare_eq_gt] at *; omega
+
+theorem natCmp_eq_trans {a b c : Nat} (h1 : compare a b = .eq) (h2 : compare b c = .eq) :
+    compare a c = .eq := by
+  rw [Nat.compare_eq_eq] at *; omega
+
+/-- transitivity of `≤` (`≠ gt`) -/
+theorem natCmp_le_trans {a b c : Nat} (h1 : compare a b ≠ .gt) (h2 : compare b c ≠ .gt) :
+    compare a c ≠ .gt := by
+  rw [Ne, Nat.compare_eq_gt] at *; omega
+
+/-- `==` agrees with `cmp` -/
+theorem natCmp_beq (a b : Nat) : decide (a = b) = (compare a b == .eq) := by
+  rcases Nat.lt_trichotomy a b with h | h | h
+  · rw [Nat.compare_eq_lt.mpr h]; have : a ≠ b := by omega
+    simp [this]
+  · rw [Nat.compare_eq_eq.mpr h]; simp [h]
+  · rw [Nat.compare_eq_gt.mpr h]; have : a ≠ b := by omega
+    simp [this]
+
+-- ---- the same laws for `Bvd` ------------------------------------------------------------------------------
+theorem Bvd.cmpBvd_refl (s : Raw 64) : Bvd.cmpBvd s s = .eq := by
+  rw [Bvd.cmpBvd_eq']; exact natCmp_refl _
+
+theorem Bvd.cmpBvd_swap (s o : Raw 64) : (Bvd.cmpBvd s o).swap = Bvd.cmpBvd o s := by
+  rw [Bvd.cmpBvd_eq', Bvd.cmpBvd_eq']; exact natCmp_swap _ _
+
+theorem Bvd.cmpBvd_le_trans {s o t : Raw 64} (h1 : Bvd.cmpBvd s o ≠ .gt) (h2 : Bvd.cmpBvd o t ≠ .gt) :
+    Bvd.cmpBvd s t ≠ .gt := by
+  rw [Bvd.cmpBvd_eq'] at *; exact natCmp_le_trans h1 h2
+
+theorem Bvd.cmpBvd_lt_trans {s o t : Raw 64} (h1 : Bvd.cmpBvd s o = .lt) (h2 : Bvd.cmpBvd o t = .lt) :
+    Bvd.cmpBvd s t = .lt := by
+  rw [Bvd.cmpBvd_eq'] at *; exact natCmp_lt_trans h1 h2
+
+theorem Bvd.cmpBvd_eq_iff (s o : Raw 64) : Bvd.cmpBvd s o = .eq ↔ s.abs.val = o.abs.val := by
+  rw [Bvd.cmpBvd_eq']; exact natCmp_eq_iff _ _
+
+/-- `PartialEq` and `Ord` of `Bvd` are consistent -/
+theorem Bvd.eqBvd_eq_cmpBvd (s o : Raw 64) : Bvd.eqBvd s o = (Bvd.cmpBvd s o == .eq) := by
+  rw [Bvd.eqBvd_eq', Bvd.cmpBvd_eq']; exact natCmp_beq _ _
+
+-- ---- bit-level criterion for the fetch hypotheses `valF f n = X` ---------------------------------------------
+theorem testBit_valF {wJ : Nat} (hw : 0 < wJ) (f : Nat → BitVec wJ) (n i : Nat) :
+    (valF f n).testBit i = (decide (i < wJ * n) && (f (i / wJ)).getLsbD (i % wJ)) := by
+  have hwd : ∀ k, k < n → wd (Array.ofFn (n := n) fun k => f k.val) k = f k := by
+    intro k hk
+    unfold wd
+    simp [Array.getD_eq_getD_getElem?, hk]
+  rw [valF_congr f (wd (Array.ofFn (n := n) fun k => f k.val)) n (fun k hk => (hwd k hk).symm),
+    valF_wd, testBit_valUpTo hw]
+  by_cases h : i < wJ * n
+  · have : i / wJ < n := (Nat.div_lt_iff_lt_mul hw).mpr (by rw [Nat.mul_comm]; exact h)
+    unfold bitAt
+    rw [hwd _ this]
+  · simp [h]
+
+/-- if word `i` of the fetch holds bits `i*wJ …` of `X`, and `X` fits in `n` words, the fetch sums to `X` -/
+theorem valF_eq_of_bits {wJ : Nat} (hw : 0 < wJ) (f : Nat → BitVec wJ) (n X : Nat)
+    (hX : X < 2 ^ (wJ * n))
+    (hf : ∀ i j, i < n → j < wJ → (f i).getLsbD j = X.testBit (i * wJ + j)) : valF f n = X := by
+  apply Nat.eq_of_testBit_eq
+  intro i
+  rw [testBit_valF hw]
+  by_cases h : i < wJ * n
+  · have h1 : i / wJ < n := (Nat.div_lt_iff_lt_mul hw).mpr (by rw [Nat.mul_comm]; exact h)
+    have h2 := Nat.mod_lt i hw
+    rw [hf _ _ h1 h2]
+    have : i / wJ * wJ + i % wJ = i := by rw [Nat.mul_comm]; exact Nat.div_add_mod i wJ
+    simp [h, this]
+  · have : X.testBit i = false :=
+      Nat.testBit_lt_two_pow (Nat.lt_of_lt_of_le hX (Nat.pow_le_pow_right (by omega) (by omega)))
+    simp [h, this]
 
 end Bva
